@@ -313,10 +313,64 @@ def r04_2(prog, rep, ctx):
         rep.fail(rid, "_inject_task1/starts-watcher", inj.loc(), "_inject_task1 never starts the watcher")
 
 
+def r04_3(prog, rep):
+    """Descriptor hygiene of the spawn path: everything run_task() opens in the daemon is closed again on every feasible path
+    (a leak per execution starves the daemon of descriptors and later occurrences are silently dropped)."""
+    rid = "R04.3"
+    from ..absw import AbsWalk
+    f = prog.fn("run_task", DAEMON)
+    cfg = f.cfg
+    opened = set()
+    leaks = []
+
+    def effect(b, i, x, store):
+        upd = {}
+        for c in calls(x):
+            if c.get("fn") == "close":
+                upd["$o:" + lv(cfg.resolve(c["a"][0]))] = 0
+        return upd
+
+    def assume(b, si, cond, store):
+        for truth in (True, False):
+            for a in cond_atoms(cond, truth):
+                if len(a) == 5 and a[0] == "<" and int_value(a[4]) == 0:
+                    l = strip(a[3])
+                    failed = (si == 0) == truth
+                    if isinstance(l, dict) and l.get("k") == "call" and l.get("fn") == "pipe":
+                        arr = lv(strip_casts(l["a"][0]))
+                        opened.update({arr + "[0]", arr + "[1]"})
+                        return {"$o:%s[0]" % arr: 0 if failed else 1, "$o:%s[1]" % arr: 0 if failed else 1}
+                    if isinstance(l, dict) and l.get("k") == "bin" and l["op"] == "=":
+                        r = strip_casts(l["r"])
+                        if r.get("k") == "call" and r.get("fn") in ("openat", "open", "accept", "socket", "dup"):
+                            v = lv(l["l"])
+                            opened.add(v)
+                            return {"$o:" + v: 0 if failed else 1, v: -1 if failed else 1000}
+                    if isinstance(l, dict) and l.get("k") == "call" and l.get("fn") == "posix_spawn_file_actions_init" and failed:
+                        return "infeasible"  # returns 0 or a positive errno: the `< 0` edge is dead (listed)
+        return None
+    tracked = {l_["n"] for l_ in f.locals if l_.get("t") == "int"}
+    w = AbsWalk(f, tracked, effect=effect, assume=assume).run()
+    if not w.exit_stores or not opened:
+        rep.broken_("rule=R04.3 walk of run_task found no descriptor sources (%s)" % sorted(opened))
+        return
+    for d in sorted(opened):
+        bad = [s_ for s_ in w.exit_stores if s_.get("$o:" + d) == 1]
+        key = "run_task/closes %s" % d
+        if bad:
+            rep.fail(rid, key, f.loc(), "descriptor %s opened by run_task() is still open in the daemon on a feasible exit path: one descriptor leaks per execution "
+                     "until pipe()/openat() fail and occurrences are dropped" % d)
+        else:
+            rep.ok(rid, key, f.loc(), "%s is closed on every feasible exit (%d abstract paths)" % (d, len(w.exit_stores)))
+    rep.note(rid, "run_task/posix_spawn_file_actions_init<0", f.loc(), "listed: the failure edge of posix_spawn_file_actions_init(...) < 0 is dead (it returns 0 or a positive errno)")
+
+
 def run(prog, rep, tier, snap):
     rep.rule("R04.1", "arming discipline of the reschedule callback and its unwinder (peek after strict unwind, no pop before return)", 8)
     ctx = r04_1(prog, rep)
     rep.rule("R04.2", "retirement reachability: end-of-stream branches, retire callback, child callback, cancel, registration", 8)
     if ctx:
         r04_2(prog, rep, ctx)
+    rep.rule("R04.3", "descriptor hygiene of the daemon's spawn path", 3)
+    r04_3(prog, rep)
 READY = True
